@@ -6,7 +6,7 @@ UNITS = [
        extra_src=["lib/sharedbook.c"], unwind=34, timeout=900, assumed=RT_ASSUMED,
        note="ID header round trip for EVERY representable info (channels 1..255, rate < 2^32, any 32-bit bitrate fields, every legal block-size pair): produced, 30 bytes, accepted, same channels/rate/bitrates/block sizes, consumed to the last byte"),
   Unit("rt_comment", ["C16", "C05"], "lib/info.c", enforce=None, kind="B", harness="h_rt_info.c", entry="h_rt_comment", defines=["H_RT_COMMENT"],
-       extra_src=["lib/sharedbook.c"], unwind=60, timeout=1500, bound="<= 2 comments of <= 3 bytes each (any byte values, NULL entries, empty strings); vendor string of the library in full",
+       extra_src=["lib/sharedbook.c"], unwind=60, timeout=3000, tier="thorough", bound="<= 2 comments of <= 3 bytes each (any byte values, NULL entries, empty strings); vendor string of the library in full",
        assumed=RT_ASSUMED,
        note="comment header round trip: same count, lengths, bytes (ghost comment/byte), NULL entries as length 0, zero terminated on read, vendor string, consumed to the last byte"),
 ]
